@@ -324,6 +324,29 @@ func governanceScenarios() []*harness.Scenario {
 		func(w *harness.World, id governance.ProposalID) *harness.TxSpec {
 			return ProposalFinalize(id, w.Users[2], "user-finalize")
 		}, 2))
+	// a name is renewed in the very block whose END finalises a passed change of the per-block price (the
+	// renewal must still be computed with the old price); a stranger's PROPOSAL_FINALIZE for that proposal
+	// follows one block later (a no-op by then). With every transaction of the history also sent to CheckTx in
+	// every gap (C07), the finalize is CHECKED before the renewal is DELIVERED: whatever a mempool check of it
+	// leaves behind in memory must not reach the renewal. (Added after a seeded change - the renewal reading
+	// the options cached on the shared domain store - escaped all histories.)
+	add(func() *harness.Scenario {
+		id := PID("renew-before-price-change")
+		name := "renewme.ol"
+		return &harness.Scenario{
+			Kind:  action.PROPOSAL_FINALIZE.String(),
+			Note:  "multi-user-finalize-noop-after-renewal-in-the-block-whose-end-applied-the-price-change",
+			World: world("renew-before-price-change"),
+			Prefix: func(w *harness.World) []harness.BlockSpec {
+				p := govPrefix(w, id, tConfig, ConfigUpdatePayload, stFinal)
+				A := w.Users[0]
+				p[1].Txs = append(p[1].Txs, DomainCreate(A, A.Addr, name, "", olt(60), "rn-create"))
+				return append(p, blk(DomainRenew(A, name, olt(7), "rn-renew")))
+			},
+			Target: func(w *harness.World) *harness.TxSpec { return ProposalFinalize(id, w.Users[2], "user-finalize-late") },
+			After:  2,
+		}
+	}())
 	add(govScenario(action.PROPOSAL_FINALIZE, "user-finalize-failed-proposal", tGeneral, "", stVote1,
 		func(w *harness.World, id governance.ProposalID) []harness.BlockSpec {
 			return []harness.BlockSpec{blk(vote(w, id, 0, governance.OPIN_NEGATIVE, "vote-no"))}
